@@ -644,7 +644,7 @@ func (w *World) buildPkg(p *Pkg) error {
 	var terrs []string
 	tc := &types.Config{Importer: mapImporter(w.allTypes), Sizes: w.Sizes, Error: func(err error) {
 		s := err.Error()
-		if strings.Contains(s, "imported and not used") || strings.Contains(s, "declared and not used") {
+		if strings.Contains(s, "imported and not used") || strings.Contains(s, "declared and not used") || (strings.Contains(s, " imported as ") && strings.HasSuffix(s, "and not used")) {
 			return
 		}
 		terrs = append(terrs, s)
@@ -707,6 +707,22 @@ func (w *World) lookupExternalSig(p *Pkg, fc *FuncContract) (*types.Signature, t
 	key := fc.Key
 	// forms: "pkgpath.Func", "(pkgpath.Type).Method", "(*pkgpath.Type).Method", local interface "(recvBuffer).Write" handled by findFuncDecl failing -> here
 	var recvStr, name string
+	if strings.HasPrefix(key, "func(") {
+		// an unnamed function type written out ("func() *mux.Session"): the contract every value of
+		// that type is assumed to satisfy when called. The expression is evaluated in the scope of
+		// the first source file of the package in which it type-checks (for its import names).
+		for _, f := range p.PP.Syntax {
+			tv, err := types.Eval(w.Fset, p.PP.Types, f.End()-1, key)
+			if err != nil || tv.Type == nil {
+				continue
+			}
+			if sg, ok := tv.Type.Underlying().(*types.Signature); ok {
+				fc.FullKey = funcTypeKey(sg)
+				return sg, nil
+			}
+		}
+		return nil, nil
+	}
 	if strings.HasPrefix(key, "(") {
 		end := strings.Index(key, ")")
 		recvStr = key[1:end]
